@@ -31,10 +31,38 @@ def tolerances(spec_item_list):
     return out
 
 
+def cvals(item, x):
+    """harness/run.c cval for the constraint kinds whose arithmetic Python reproduces exactly (sums of products, left to right)"""
+    f = item.split(":")
+    if f[0] == "s":
+        m, ck, b0, j0 = 1, int(f[1]), unhex(f[3]), int(f[4])
+    else:
+        m, ck, b0, j0 = int(f[1]), int(f[2]), unhex(f[4]), int(f[5])
+    n, out = len(x), []
+    for jj in range(m):
+        b, j = (b0 + 0.1 * jj) if f[0] == "v" else b0, j0 + jj
+        if ck == 0:
+            v = 0.0
+            for i in range(n):
+                v += (float(((i + j) % 3) - 1) + 0.5) * x[i]
+            out.append(v - b)
+        elif ck in (1, 3):
+            v = 0.0
+            for i in range(n):
+                t = x[i] - 0.1 * j
+                v += t * t
+            out.append(v - b if ck == 1 else b - v)
+        elif ck == 2:
+            out.append(x[j % n] - b)
+        else:
+            return None
+    return out
+
+
 def mon_feasible(ri):
     if ri.ret is None or ri.name not in STOPVAL_ALGS or ("ineq" not in ri.sp and "eq" not in ri.sp):
         return None
-    if not (ri.ret in monitors.SUCCESS_CODES or ri.ret == monitors.ROUNDOFF):
+    if not (ri.ret in monitors.SUCCESS_CODES or ri.ret == monitors.ROUNDOFF or (ri.ret == -5 and "stopat" in ri.sp)):
         return None
     zero_tol = ri.name.startswith("NLOPT_GN_ORIG_DIRECT")
     itol = tolerances(ri.sp["ineq"]) if "ineq" in ri.sp else []
@@ -42,8 +70,13 @@ def mon_feasible(ri):
     ncons = len(itol) + len(etol)
     pts = {}
     order = []
-    for c in ri.run.calls:
+    stopat = int(ri.sp["stopat"]) if "stopat" in ri.sp else None
+    for idx, c in enumerate(ri.run.calls):
         e = pts.setdefault(c.x, {"f": None, "c": {}})
+        if stopat is not None and idx + 1 >= stopat:
+            # the evaluation during which the stop is raised is interrupted: the library may discard it (the original DIRECT marks
+            # it invalid, ISRES returns before ranking it), so it is not one of the points the result is measured against
+            e["cut"] = True
         if c.kind == "f":
             e["f"] = unhex(c.val)
             order.append(c.x)
@@ -69,9 +102,20 @@ def mon_feasible(ri):
                 return True
         return False
 
-    feas = [(x, pts[x]["f"]) for x in order if pts[x]["f"] is not None and pts[x]["f"] == pts[x]["f"] and feasible(pts[x]) is True]
+    feas = [(x, pts[x]["f"]) for x in order if pts[x]["f"] is not None and pts[x]["f"] == pts[x]["f"] and feasible(pts[x]) is True
+            and not pts[x].get("cut")]
     key = ",".join(ri.xbits)
     ret_e = pts.get(key)
+    if ret_e is not None and ret_e.get("cut") and feasible(ret_e) is None:
+        # the interrupted point came back: its remaining constraints are computed here with the harness's formulas
+        ret_e = dict(ret_e, c=dict(ret_e["c"]))
+        xs = [unhex(h) for h in ri.xbits]
+        for role, spec in ((1, ri.sp.get("ineq")), (2, ri.sp.get("eq"))):
+            for i, it in enumerate(spec.split(";") if spec else []):
+                if (role, i) not in ret_e["c"]:
+                    vals = cvals(it, xs)
+                    if vals is not None:
+                        ret_e["c"][(role, i)] = vals
     if ri.ret == 2:
         if ret_e is None or feasible(ret_e) is not True:
             return ({"alg": ri.name, "cause": "STOPVAL_REACHED for a point that is not feasible"},
@@ -242,6 +286,53 @@ def run(ctx):
                 p["oc"] = [2.5 * math.cos(ang), 2.5 * math.sin(ang)]
                 p["ineq"] = "s:1:%s:%s:0" % (hexd(rng.choice([0.05, 0.1, 0.2])), hexd(1.0))
                 p["quietx"] = 0
+                ps.append(p)
+        # stopval that every objective value meets: the run ends at the first evaluated point the algorithm judges feasible, so the
+        # verdict on a point inside the band of a loose tolerance but outside a tight one decides the result; starts are placed in
+        # such bands (component order loose-first and loose-last, scalar and vector constraints)
+        for nm in STOPVAL_ALGS:
+            for _ in range(80 if ctx.thorough else 20):
+                n = 3
+                p = problems.gen_problem(rng, A, alg_name=nm, n=n, with_constraints=False, box="finite", maxeval=rng.choice([40, 100]), allow_max=False)
+                for k in ("stopval", "ftol_rel", "xtol_rel", "xtol_abs", "xw", "maxtime", "clockq"):
+                    p.pop(k, None)
+                p["lb"], p["ub"] = [-3.0] * n, [3.0] * n
+                p["obj"] = 0
+                b = rng.uniform(0.3, 1.0)
+                loose, tight = rng.choice([1e-2, 5e-2, 0.1]), rng.choice([0.0, 1e-8, 1e-4])
+                m = rng.choice([2, 3])
+                tols = [tight] * m
+                for k in rng.sample(range(m), rng.choice([1, m - 1])):
+                    tols[k] = loose
+                # component j: x[j] - (b + 0.1 j) <= 0; offsets inside the loose band, some below the tight tolerance, some not
+                offs = [rng.choice([0.0, -0.2, rng.uniform(0.2, 0.9) * loose, rng.uniform(0.05, 0.2) * loose]) for _ in range(m)]
+                if rng.random() < 0.5:      # the largest violation is a tolerated one, a smaller one is not tolerated
+                    offs = [rng.uniform(0.5, 0.9) * loose if tols[j] == loose else rng.uniform(0.05, 0.4) * loose for j in range(m)]
+                p["x0"] = [(b + 0.1 * j + offs[j]) if j < m else rng.uniform(-0.3, 0.3) for j in range(n)]
+                p["oc"] = [b + 0.1 * j + rng.uniform(0.5, 1.5) for j in range(n)]
+                if nm in ("NLOPT_LD_SLSQP", "NLOPT_LN_COBYLA") and rng.random() < 0.4:
+                    offs = [o if (o <= 0 or rng.random() < 0.5) else -o for o in offs]
+                    p["x0"] = [(b + 0.1 * j + offs[j]) if j < m else p["x0"][j] for j in range(n)]
+                    p["eq"] = "v:%d:2:%s:%s:0" % (m, problems.hl(tols), hexd(b))
+                elif rng.random() < 0.5:
+                    p["ineq"] = "v:%d:2:%s:%s:0" % (m, problems.hl(tols), hexd(b))
+                else:
+                    p["ineq"] = ";".join("s:2:%s:%s:%d" % (hexd(tols[j]), hexd(b + 0.1 * j), j) for j in range(m))
+                p["stopval"] = 1e6
+                ps.append(p)
+        # forced stops: the returned x of the algorithms of the first clause is still the best feasible evaluated point
+        for nm in ALGS:
+            for _ in range(40 if ctx.thorough else 10):
+                n = 2
+                p = problems.gen_problem(rng, A, alg_name=nm, n=n, with_constraints=False, box="finite", maxeval=200, allow_max=False)
+                for k in ("stopval", "ftol_rel", "xtol_rel", "xtol_abs", "xw", "maxtime", "clockq"):
+                    p.pop(k, None)
+                p["lb"], p["ub"] = [-1.0] * n, [1.0] * n
+                p["x0"] = [rng.uniform(-0.2, 0.2) for _ in range(n)]
+                p["obj"] = 0
+                p["oc"] = [rng.choice([-2.0, 2.0]), rng.uniform(-0.5, 0.5)]
+                p["ineq"] = "s:2:%s:%s:0;s:1:%s:%s:1" % (hexd(0.0), hexd(rng.uniform(0.0, 0.4)), hexd(0.0), hexd(rng.uniform(1.0, 2.0)))
+                p["stopat"] = rng.randrange(2, 40)
                 ps.append(p)
         batch = runcheck.run_batch(ctx, bdir, A, ps, [mon_feasible], "constrained runs")
         try:
